@@ -38,6 +38,8 @@ extern std::vector<T> Combine_Lists(const std::vector<T>& v1, const std::vector<
 template <typename T>
 extern std::vector<std::vector<T>> Transpose_Lists(const std::vector<std::vector<T>>& lists)
 {
+	if(lists.empty())
+		return std::vector<std::vector<T>>();
 	unsigned int N = lists.size();
 	unsigned int M = lists[0].size();
 	for(unsigned int i = 1; i < N; i++)
